@@ -248,6 +248,19 @@ def load_known() -> list[dict]:
 def finish(ctx: Ctx, audit: dict, level_note: list[str], rule: str, partial: list[str] | None = None) -> int:
     """Write evidence, print VIOLATION / KNOWN-FINDING lines, return the exit code."""
     theorems = audit.get("theorems", [])
+    recheck = None
+    if ctx.tier == "thorough" and audit.get("built"):
+        # independent re-check of the compiled property module (and everything it imports from this project)
+        t1 = time.time()
+        try:
+            with LeanLock():
+                r = subprocess.run(["lake", "env", "leanchecker", f"FormakVerif.Properties.{ctx.pid}"], cwd=LEAN_DIR,
+                                   capture_output=True, text=True, timeout=1800)
+            recheck = {"ok": r.returncode == 0, "wall_s": round(time.time() - t1, 1), "log": (r.stdout + r.stderr)[-500:]}
+        except Exception as e:  # noqa: BLE001
+            recheck = {"ok": False, "log": repr(e)}
+        if not recheck["ok"]:
+            ctx.broke("leanchecker", recheck)
     bad_axioms = [t for t in theorems if not set(t["axioms"]) <= ACCEPTED_AXIOMS]
     proof_ok = audit.get("built", False) and theorems and not bad_axioms and not audit.get("forbidden")
     if not proof_ok:
@@ -303,6 +316,7 @@ def finish(ctx: Ctx, audit: dict, level_note: list[str], rule: str, partial: lis
             "input_distribution": ctx.dist,
             "partial": partial or [],
             "audit_cached": audit.get("cached", False),
+            "leanchecker": recheck,
             "known_findings_hit": sorted(known_hits),
             "broken": [b["which"] for b in ctx.broken],
             **ctx.extra,
